@@ -263,8 +263,9 @@ CHECKS = {
                 "end."
                 " A consumer family hands generated descriptions (incl. one-voxel axes) to the real compute_dyadic_scales on tiny datasets: accepted inside the envelope, every level readable.",
         "note": "Lattice, not all positive reals; 'compatible' = the "
-                "envelope stated in the module. Three recorded known "
-                "findings (three distinct delays; target <= 4).",
+                "envelope stated in the module. Five recorded known "
+                "findings, matched by failure class, target and number of "
+                "distinct downscaling delays.",
     },
     "C16": {
         "engine": "E-INPUT", "level": "exploration",
